@@ -21,6 +21,7 @@ static const char *const ctr_names[VF_NCTR] = {
 };
 
 static int P_C13, P_C14;
+static size_t MARKS[4096]; static int NMARKS;      /* token boundaries of the current long document (0 = use every capacity) */
 static vf_doc *D;
 static const uint8_t *IN; static size_t INLEN; static int KIND; static const char *LABEL;
 static long cur_cap = -2; static int cur_nice;
@@ -88,6 +89,12 @@ static bool protocol_valid(const char *ref_text)
     char *ample = NULL;
     size_t tl = 0;
     for (long cap = 0; cap <= (long) need + 3; cap++) {
+        if (NMARKS && cap > 8) {
+            /* long documents: every capacity within 3 of a token boundary of the rendering (and 0..8, need-3..need+3) */
+            bool near = (size_t) cap + 3 >= need;
+            for (int k = 0; k < NMARKS && !near; k++) if ((size_t) cap + 3 >= MARKS[k] && (size_t) cap <= MARKS[k] + 3) near = true;
+            if (!near) continue;
+        }
         vf_count(CT_STATES, 1);
         for (int nice = 0; nice < 2; nice++) {
             char *txt = NULL;
@@ -199,10 +206,14 @@ static int needed_depth(const vf_doc *d)
     return best;
 }
 
+static bool LONGDOC;
 static bool run_valid_once(void)
 {
     static vf_str ref;
+    NMARKS = 0;
+    if (LONGDOC) { vf_render_marks = MARKS; vf_render_nmarks = 0; vf_render_maxmarks = 4096; }
     vf_ref_render(D, &ref);
+    if (LONGDOC) { NMARKS = vf_render_nmarks; vf_render_marks = NULL; }
     if (!init_live(needed_depth(D))) { vf_live_free(&L); return fail("init", "init rejects a valid document"); }
     bool ok = P_C13 ? protocol_valid(NULL) : render_check(ref.s, ref.n);
     vf_live_free(&L);
@@ -290,6 +301,32 @@ static void on_doc_mut(vf_gen *g, void *u)
     vf_mutants(g->doc.bytes, g->doc.len, mscratch, 4096, on_mut, &copy);
 }
 
+/* values and names of 200 / 32768 bytes (2- and 4-byte length prefixes; a bytes value of 32768 renders as 65541 characters) */
+static void long_family(void)
+{
+    static vf_doc ld;
+    static uint8_t big[32768];
+    for (size_t i = 0; i < sizeof big; i++) big[i] = (uint8_t) ('A' + i % 50);
+    static const size_t lens[] = { 127, 128, 200, 32767, 32768 };
+    for (size_t li = 0; li < sizeof lens / sizeof lens[0]; li++)
+        for (int shape = 0; shape < 4; shape++) {
+            if (!take()) continue;
+            if (vf_deadline_passed()) return;
+            vf_b_reset(&ld);
+            switch (shape) {
+            case 0: vf_b_open(&ld, VK_OBJ); vf_b_name(&ld, "A", 1); vf_b_blob(&ld, VK_STR, big, lens[li]); vf_b_name(&ld, "B", 1); vf_b_int(&ld, 1); vf_b_close(&ld); break;
+            case 1: vf_b_open(&ld, VK_ARR); vf_b_blob(&ld, VK_BYT, big, lens[li]); vf_b_bool(&ld, true); vf_b_close(&ld); break;
+            case 2: vf_b_open(&ld, VK_OBJ); vf_b_name(&ld, big, lens[li]); vf_b_open(&ld, VK_ARR); vf_b_int(&ld, 1); vf_b_close(&ld); vf_b_close(&ld); break;
+            default: vf_b_open(&ld, VK_OBJ); vf_b_name(&ld, "A", 1); vf_b_open(&ld, VK_ARR); vf_b_blob(&ld, VK_BYT, big, lens[li]); vf_b_blob(&ld, VK_STR, big, lens[li]); vf_b_close(&ld); vf_b_close(&ld); break;
+            }
+            char lab[80];
+            snprintf(lab, sizeof lab, "long payload: shape %d, length %zu", shape, lens[li]);
+            LONGDOC = lens[li] > 1000;
+            run_valid(&ld, lab);
+            LONGDOC = false;
+        }
+}
+
 static int N_DOC, N_DOC_PLAIN;
 static void worker(int w, int W, uint64_t start)
 {
@@ -300,6 +337,7 @@ static void worker(int w, int W, uint64_t start)
     if (outfd < 0) vf_die("memfd_create");
     fflush(stdout);
     if (dup2(outfd, 1) < 0) vf_die("dup2");
+    long_family();
     /* 1. all value kinds, small documents */
     static const int cls[] = { LC_INT8, LC_INTMIN, LC_DBL, LC_DBLBIG, LC_STR, LC_STR0, LC_STRNUL, LC_BYT0, LC_BYT, LC_BYT40, LC_TRUE, LC_FALSE, LC_OBJ, LC_ARR };
     static const vf_name names[] = { { (const uint8_t *) "A", 1 }, { (const uint8_t *) "B", 1 }, { (const uint8_t *) "C\0x", 3 } };
@@ -339,7 +377,7 @@ static void replay_main(void)
     char *t = vf_replay_load(vf_g.replay);
     char *root = vf_replay_get(t, "root"), *hex = vf_replay_get(t, "input_hex");
     if (!root || !hex) vf_die("replay file lacks root/input_hex");
-    static uint8_t bytes[8192];
+    static uint8_t bytes[200000];
     static vf_doc R;
     long n = vf_unhex(bytes, sizeof bytes, hex);
     if (n < 0) vf_die("bad input_hex");
@@ -356,6 +394,7 @@ static void replay_main(void)
     if (vf_ref_decode(bytes, (size_t) n, kind, 255, &R) == VR_OK) {
         R.bytes = bytes; R.len = (size_t) n; R.root_kind = kind;
         D = &R;
+        LONGDOC = n > 3000;
         ok = run_valid_once();
     } else {
         init_live(3);
@@ -381,11 +420,11 @@ int main(int argc, char **argv)
     if ((e = getenv("VERIF_NP"))) N_DOC_PLAIN = atoi(e);
     if (vf_g.replay) replay_main();
     int deaths = vf_run_workers(worker);
-    static char bound[900];
+    static char bound[1300];
     snprintf(bound, sizeof bound,
              "every valid object- and array-rooted document with <= %d value tokens over 12 printable leaf classes (int 1.., INT64_MIN, doubles incl. -1e308 = 316 characters, "
              "strings incl. empty and embedded NUL, bytes of 0/3/40, booleans) and with <= %d value tokens over {int, bytes, {}, []} (all separator contexts), names incl. one with an "
-             "embedded NUL%s",
+             "embedded NUL; 20 documents with string / bytes / name payloads of 127..32768 bytes (capacities within 3 of every token boundary)%s",
              N_DOC, N_DOC_PLAIN,
              P_C13 ? "; each x EVERY capacity 0..need+3 x nice{false,true} on an exact-size heap destination, NULL query with 3 stale sizes; every INVALID input among the framed hostile token "
                      "sequences and the one-deviation mutants of small documents x capacities {NULL,0,1,16,4096}"
